@@ -5,14 +5,14 @@ ids=[json.loads(l)['id'] for l in open('/verif/properties.jsonl')]
 FE={'C05','C10','C16'}
 claimed = {
  'C01': ('proptest model-based history testing (ordered-map MVCC model, point reads after every op)', 'E1', '3 C01'),
- 'C02': ('proptest model-based history testing with stored-answer snapshot re-reads', 'E1', '3 C02'),
+ 'C02': ('proptest model-based history testing with stored-answer snapshot re-reads and long-lived iterators', 'E1', '3 C02'),
  'C03': ('proptest model-based scan queries consumed from both ends (+overlay)', 'E1', '3 C03'),
  'C04': ('proptest model-based history testing with reopen at generated positions', 'E1', '3 C04'),
  'C07': ('proptest history testing with structural invariant audit + independent manifest decoder', 'E1', '3 C07'),
  'C14': ('proptest model-based history testing with bulk ingestion', 'E1', '3 C14'),
  'C15': ('proptest model-based history testing with drop_range/clear and taint-aware oracle', 'E1', '3 C15'),
  'C18': ('proptest history testing; marks compared with full table scans and the model', 'E1', '3 C18'),
- 'C20': ('proptest history testing with directory-vs-version audit', 'E1', '3 C20'),
+ 'C20': ('proptest history testing with directory-vs-version audit (incl. iterators held at SeqNo::MAX) + reopen-and-list of every enumerated crash image (C05 machinery) and every failed-operation directory (C16 machinery)', 'E1', '3 C20'),
 }
 import importlib.util, os
 extra = '/verif/manifest_extra.json'
